@@ -221,6 +221,15 @@ def gen_c15_helpers(tier, rng):
                 b"Fixed/UTC+0\0:00:00", b"Fixed/UTC+00:0\0:00", b"Fixed/UTC+00:00:0\0", b"Fixed/UTC+\0\0:\0\0:\0\0",
                 b"Fixed/UTC 01:00:00", b"Fixed/UTC+01-00-00", b"fixed/UTC+01:00:00", b"Fixed/UTC+1:00:000", b"Fixed/UTC+001:00:0"]:
         cases.append("fx_from %s" % hexs(lit))
+    # the zone part: fixed_time_zone(off) at instants spread over the int64 range
+    inst = [I64_MIN, I64_MAX, 0, -1, 1, 1700000000, -(1 << 59), 1 << 59, (1 << 31) - 1, -(1 << 62)]
+    step = 37 if tier == "quick" else 1
+    for off in list(range(-90000, 90001, step)) + [86400, -86400, 86399, -86399, 86401, -86401, 1, -1, 59, -59, 60, -60, 3599, -3600]:
+        ts = inst if tier != "quick" else [rng.choice(inst)]
+        for t in ts:
+            cases.append("fz %d %d" % (off, t))
+    for off in (I64_MAX, I64_MIN, 1 << 40, -(1 << 40)):
+        cases.append("fz %d 0" % off)
     for _ in range(2000 if tier == "quick" else 100000):
         m = bytearray(rng.choice(seeds))
         for _k in range(rng.randint(1, 3)):
